@@ -59,6 +59,7 @@ class SGD(Optimizer):
         super().step()
         with synapgrad.no_grad():
             for i, p in enumerate(self.parameters):
+                if not p.requires_grad or p._grad is None: continue # frozen, or never reached by backward
                 grad = p._grad
                 
                 # Weight decay
@@ -120,6 +121,7 @@ class Adam(Optimizer):
         super().step()
         with synapgrad.no_grad():
             for i, p in enumerate(self.parameters):
+                if not p.requires_grad or p._grad is None: continue # frozen, or never reached by backward
                 grad = -p._grad if self.maximize else p._grad   
                     
                 # Weight decay
@@ -173,6 +175,7 @@ class AdamW(Optimizer):
         super().step()
         with synapgrad.no_grad():
             for i, p in enumerate(self.parameters):
+                if not p.requires_grad or p._grad is None: continue # frozen, or never reached by backward
                 grad = -p._grad if self.maximize else p._grad   
                 
                 # Weight decay
